@@ -967,6 +967,9 @@ func (e *episode) doAwait(run *hx.Run, f []string) string {
 			time.Sleep(20 * time.Microsecond)
 		}
 	}
+	// the loop may have ended on the delivered result with a snapshot taken before the registration:
+	// the locked part is over now, take the snapshot the output is computed from
+	s = e.db.VerifSnapshot()
 	e.queries = append(e.queries, q)
 	e.snap = s
 	r := e.collect(run, s, nil)
